@@ -77,4 +77,11 @@ CHECKS = {
         "level_note": "default delivery schedule inside each operation; the lock-level window between a result being sent and the tables being cleaned is not explored here (event level waits for quiescence)",
         "budget_s": {"quick": 170, "thorough": 900},
     },
+    "C05": {
+        "pkg": "checks/c05", "level": "model_checking", "engine": "E1 bubble-net",
+        "technique": "exhaustive enumeration of a deviation-strategy catalogue x victim sets x (n,t) x deviator position on the full real stack in a synctest bubble (deviator = real instance behind an output filter), default and <=1-deviation schedules",
+        "level_text": "every cell of the catalogue is executed to the virtual deadline; oracles: no panic, return by deadline, identical public material among completers, every honest t-subset signs under the reported key, reveal only after all commitments",
+        "level_note": "strategy catalogue is finite (26 strategies); BLS and PS (message length 1); n <= 4; loud mode",
+        "budget_s": {"quick": 170, "thorough": 900},
+    },
 }
